@@ -41,8 +41,8 @@ for M in (1, 2, 3, 4, 6, 8, 12, 33, 62, 63, 64, 65, 66):
         QP('num.M%d' % M, 'harness/parse_num.c', props=PARSE_PROPS + (('C07',) if M == 3 else ()), defs=['-DM=%d' % M], unwind=M + 2, tiers=tiers, cost=M, functions=fn)
     else:
         # long buffers: offset 0; safety/rejection/offset obligations on arbitrary bytes, C02 on constructed long integer literals
-        QP('num.M%d' % M, 'harness/parse_num.c', props=('C01', 'C03', 'C10'), defs=['-DM=%d' % M, '-DOFF0'], unwind=min(M, 64) + 2, tiers=tiers, cost=M, functions=fn)
-        QP('numlong.M%d' % M, 'harness/parse_num.c', props=('C02',), defs=['-DM=%d' % M, '-DOFF0', '-DLONGINT'], unwind=min(M, 64) + 3, tiers=tiers, cost=M, functions=fn)
+        QP('num.M%d' % M, 'harness/parse_num.c', props=('C01', 'C03', 'C10'), defs=['-DM=%d' % M, '-DOFF0'], unwind=min(M, 64) + 2, unwindset=['memcmp.0:%d' % (M + 2)], tiers=tiers, cost=M, functions=fn)
+        QP('numlong.M%d' % M, 'harness/parse_num.c', props=('C02',), defs=['-DM=%d' % M, '-DOFF0', '-DLONGINT'], unwind=min(M, 64) + 3, unwindset=['memcmp.0:%d' % (M + 2)], tiers=tiers, cost=M, functions=fn, timeout=1800)
 
 STRFN = ['parse_string', 'utf16_literal_to_utf8', 'parse_hex4']
 for M in (1, 2, 3, 4, 5, 6, 7, 8, 10, 12):
@@ -55,7 +55,7 @@ RC_PV = [('__CPROVER_file_local_cJSON_c_parse_value', 'vf_stub_parse_value')]
 RC_PS = [('__CPROVER_file_local_cJSON_c_parse_string', 'vf_stub_parse_string')]
 for M in (2, 3, 4, 5, 6, 7):
     tiers = ('quick', 'thorough') if M <= 5 else ('thorough',)
-    QP('arr.M%d' % M, 'harness/parse_arr.c', props=('C01', 'C02', 'C03', 'C08', 'C10'), defs=['-DM=%d' % M], unwind=M + 3, tiers=tiers, cost=M * 3,
+    QP('arr.M%d' % M, 'harness/parse_arr.c', props=('C01', 'C02', 'C03', 'C08', 'C10'), defs=['-DM=%d' % M], unwind=M + 3, tiers=tiers, cost=M * 3, timeout=(600 if M <= 6 else 2400),
        stub=['parse_value'], functions=['parse_array', 'buffer_skip_whitespace', 'cJSON_New_Item', 'cJSON_Delete'],
        unwindset=['cJSON_Delete.0:%d' % (M + 2), 'cJSON_Delete:2'])
 for M in (2, 3, 4, 5, 6, 7, 8):
